@@ -320,7 +320,7 @@ void loss_case(vt::Rng& rng, const std::string& id, int64_t kase)
     {
         const auto pattern = rng.range(0, 3);
         const auto hot     = rng.range(0, k - 1);
-        const auto real    = !exact && rng.coin();
+        const auto real    = exact ? rng.coin(1, 3) : rng.coin(); // real-valued predictions in [-30, 30] (the exact rules need the lattice)
         for (tensor_size_t i = 0; i < k; ++i)
         {
             if (info.ekind == "absdiff" || info.ekind == "value")
@@ -388,7 +388,7 @@ void loss_case(vt::Rng& rng, const std::string& id, int64_t kase)
             int64_t a = 0, b = 0, c = 0, g = 0;
             lattice = vt::to_lattice(targets(s, i, 0, 0), 1.0, a) && vt::to_lattice(outputs(s, i, 0, 0), 1.0, b) &&
                       vt::to_lattice(outputz(s, i, 0, 0), 1.0, c) && lattice;
-            if (exact && !vt::to_lattice(vgrads(s, i, 0, 0), 4.0, g))
+            if (exact && lattice && !vt::to_lattice(vgrads(s, i, 0, 0), 4.0, g))
             {
                 vt::put(vt::J("Inexact").s("fn", id).i("case", kase));
                 return;
@@ -398,7 +398,7 @@ void loss_case(vt::Rng& rng, const std::string& id, int64_t kase)
             zs.push_back(c);
             g4.push_back(g);
         }
-        if (exact && (!vt::to_lattice(values(s), 4.0, val4) || !vt::to_lattice(valuez(s), 4.0, valz4)))
+        if (exact && lattice && (!vt::to_lattice(values(s), 4.0, val4) || !vt::to_lattice(valuez(s), 4.0, valz4)))
         {
             vt::put(vt::J("Inexact").s("fn", id).i("case", kase));
             return;
@@ -442,10 +442,45 @@ void loss_case(vt::Rng& rng, const std::string& id, int64_t kase)
                 gradOK = best < 1e-6;
             }
         }
+        // the error rule recomputed on the actual (real-valued) targets and predictions
+        auto errOK = true;
+        {
+            constexpr auto epsm = std::numeric_limits<scalar_t>::epsilon();
+            double         want = 0.0;
+            if (info.ekind == "absdiff")
+            {
+                for (tensor_size_t i = 0; i < k; ++i)
+                {
+                    want += std::fabs(targets(s, i, 0, 0) - outputs(s, i, 0, 0));
+                }
+                errOK = std::fabs(errors(s) - want) <= 1e-12 * (1.0 + want);
+            }
+            else if (info.ekind == "mclass" || (info.ekind == "sclass" && k == 1))
+            {
+                for (tensor_size_t i = 0; i < k; ++i)
+                {
+                    want += (targets(s, i, 0, 0) * outputs(s, i, 0, 0) < epsm) ? 1.0 : 0.0;
+                }
+                errOK = errors(s) == want;
+            }
+            else if (info.ekind == "sclass")
+            {
+                tensor_size_t imax = 0;
+                for (tensor_size_t i = 1; i < k; ++i)
+                {
+                    imax = outputs(s, i, 0, 0) > outputs(s, imax, 0, 0) ? i : imax; // first maximum
+                }
+                errOK = errors(s) == (targets(s, imax, 0, 0) > 0.0 ? 0.0 : 1.0);
+            }
+            else
+            {
+                errOK = vt::same_bits(errors(s), values(s));
+            }
+        }
         vt::J j("Loss");
-        j.s("loss", id).s("base", info.base).s("ekind", lattice ? info.ekind : "none").i("a4", a4).b("convex", loss->convex()).b("smooth", loss->smooth());
+        j.s("loss", id).s("base", (exact && !lattice) ? info.base + "-real" : info.base).s("ekind", lattice ? info.ekind : "none").i("a4", a4).b("convex", loss->convex()).b("smooth", loss->smooth());
         j.a("t", ts).a("o", lattice ? os : std::vector<int64_t>{}).a("z", lattice ? zs : std::vector<int64_t>{}).a("g4", g4);
-        j.i("val4", val4).i("valz4", valz4).i("err", err).b("nonneg", nonneg).b("local", local).b("gradOK", gradOK).b("convexOK", convexOK);
+        j.i("val4", val4).i("valz4", valz4).i("err", err).b("nonneg", nonneg).b("local", local).b("gradOK", gradOK).b("convexOK", convexOK).b("errOK", errOK);
         j.b("valueSame", true).i("case", kase);
         vt::put(j);
     }
@@ -530,31 +565,31 @@ int main(int argc, char** argv)
         {
             loss_case(rng, id, kase);
         }
-        // (5) float oracles over every registered function prototype, dims 1..32
-        if (kase % 4 == 0)
+        // (5) float oracles over the registered function prototypes (a third of them per case), any dimension in 1..32
+        for (const auto& id : fun_ids)
         {
-            for (const auto& id : fun_ids)
+            if (!rng.coin(1, 3))
             {
-                static const tensor_size_t all_dims[] = {1, 2, 3, 4, 5, 8, 13, 16, 32};
-                const auto                 dims       = all_dims[rng.range(0, 8)];
-                rfunction_t                f;
-                try
-                {
-                    f = function_t::all().get(id)->make(dims, rng.range(5, 40));
-                }
-                catch (const std::exception&)
-                {
-                    continue;
-                }
-                if (!f)
-                {
-                    continue;
-                }
-                const auto o = generic_oracle(rng, *f, f->smooth());
-                vt::put(vt::J("Generic").s("fn", id).i("dims", f->size()).b("convex", f->convex()).b("smooth", f->smooth()).b("gradOK", o.gradOK).b("differentiable", o.differentiable)
-                            .b("convexOK", o.convexOK).b("valueOnlySame", o.valueSame).i("graderr_e12", static_cast<int64_t>(std::min(o.graderr * 1e12, 2e9)))
-                            .i("case", kase));
+                continue;
             }
+            const auto  dims = rng.coin(1, 4) ? rng.pick(std::vector<tensor_size_t>{1, 2, 32}) : rng.range(1, 32);
+            rfunction_t f;
+            try
+            {
+                f = function_t::all().get(id)->make(dims, rng.range(5, 40));
+            }
+            catch (const std::exception&)
+            {
+                continue;
+            }
+            if (!f)
+            {
+                continue;
+            }
+            const auto o = generic_oracle(rng, *f, f->smooth());
+            vt::put(vt::J("Generic").s("fn", id).i("dims", f->size()).b("convex", f->convex()).b("smooth", f->smooth()).b("gradOK", o.gradOK).b("differentiable", o.differentiable)
+                        .b("convexOK", o.convexOK).b("valueOnlySame", o.valueSame).i("graderr_e12", static_cast<int64_t>(std::min(o.graderr * 1e12, 2e9)))
+                        .i("case", kase));
         }
     }
     vt::put(vt::J("Done").i("case", -1));
